@@ -395,6 +395,7 @@ func TestVerifC48Agent(t *testing.T) {
 		next   int
 		drifts int
 		infra  string
+		perSig = map[string]int{}
 	)
 	for w := 0; w < 4; w++ {
 		wg.Add(1)
@@ -424,6 +425,11 @@ func TestVerifC48Agent(t *testing.T) {
 					}
 				}
 				for _, v := range res.viol {
+					// verifh keeps the first 50 violation records only: report a few per signature so
+					// that frequent (known) signatures cannot crowd out a new one
+					if perSig[v[0]]++; perSig[v[0]] > 3 {
+						continue
+					}
 					verifh.Violation(v[0], v[1], map[string]any{"behaviour": behs[i], "seed": verifh.Seed()})
 				}
 				if res.trace != nil && tf != nil {
